@@ -395,15 +395,28 @@ class WithOptions(Evaluatable[B]):
             else mix(self.options, options)  # type: ignore
         )
 
-    def _determined(self, key: str, options: Options) -> bool:
-        """Whether the value under key is fixed by the pre-set options alone."""
+    def _provided(self, key: str, options: Options) -> Set[str]:
+        """The part of a key of the mixed options that comes from the caller."""
         if not dotted_key_exists(key, self.options):
-            return False
+            return {key}
         if not dotted_key_exists(key, options):
-            return True
+            return set()
+        if not self.force:
+            return {key}
+
+        preset = get_dotted_key(key, self.options)
+        given = get_dotted_key(key, options)
+        if not isinstance(preset, Mapping) or not isinstance(given, Mapping):
+            return set()
+
         # a pre-set section is merged with the section the caller provides
-        return self.force and not isinstance(
-            get_dotted_key(key, self.options), Mapping
+        return set().union(
+            *(
+                self._provided(f"{key}.{name}", options)
+                if name in preset
+                else {f"{key}.{name}"}
+                for name in given
+            )
         )
 
     def evaluate(self, options: Options) -> B:
@@ -416,20 +429,22 @@ class WithOptions(Evaluatable[B]):
 
     def keys(self, options: Options) -> Set[str]:
         """Return the keys required by the wrapped Evaluatable object."""
-        return {
-            key
-            for key in self.evaluatable.keys(self._options(options))
-            if not self._determined(key, options)
-        }
+        return set().union(
+            *(
+                self._provided(key, options)
+                for key in self.evaluatable.keys(self._options(options))
+            )
+        )
 
     def explain(self, options: Optional[Options] = None) -> Set[str]:
         """Return the explanation for the wrapped Evaluatable object."""
         options = options or {}
-        return {
-            key
-            for key in self.evaluatable.explain(self._options(options))
-            if not self._determined(key, options)
-        }
+        return set().union(
+            *(
+                self._provided(key, options)
+                for key in self.evaluatable.explain(self._options(options))
+            )
+        )
 
     def __repr__(self) -> str:
         return (
